@@ -194,7 +194,7 @@ def run(ctx):
         toks = H.interleave(rng, H.random_schedule(scs[0], rng, early=rng.choice([0, 1, 2])),
                             H.random_schedule(scs[1], rng, early=rng.choice([0, 1, 2])))
         _run_two(ctx, res, H, scs, toks)
-    n_random = 9000 if ctx.thorough else 1000
+    n_random = 8000 if ctx.thorough else 1000
     for i in range(n_random):
         if len(res.failures) >= MAX_FAILURES:
             break
@@ -214,7 +214,7 @@ def run(ctx):
     # link-layer behaviours: ONE communication qubit (every keep response carries the same physical id;
     # sequential keep requests whose pairs share a virtual qubit) and per-link numbering (responses of two
     # remote nodes carry equal (create_id, sequence_number))
-    n_link = 4000 if ctx.thorough else 500
+    n_link = 3000 if ctx.thorough else 500
     for i in range(n_link):
         if len(res.failures) >= MAX_FAILURES:
             break
@@ -228,7 +228,7 @@ def run(ctx):
         _run_case(ctx, res, H, sc, toks, "lnk")
     # application life cycle inside the schedules: two applications on the node, stop_application of one
     # while responses for the other's not-yet-issued requests are parked
-    n_life = 4000 if ctx.thorough else 450
+    n_life = 2500 if ctx.thorough else 450
     for i in range(n_life):
         if len(res.failures) >= MAX_FAILURES:
             break
